@@ -342,6 +342,28 @@ class Check:
             self.traces_validated += len(part) - len(got)
         return rejected
 
+    def judge_steps(self, module, traces, meta=None, cfg=None, chunk=3000, **kw):
+        """Multi-step trace validation: the trace spec consumes events through the design
+        spec's actions; it prints <<"ACC", tid>> when a trace is consumed to the end and
+        <<"REJ", tid, clause, l>> when an event is refused or an invariant fails.
+        Returns [(trace, clause, position)] for rejected traces."""
+        rejected = []
+        for base in range(0, len(traces), chunk):
+            part = traces[base : base + chunk]
+            r = self.tlc(module, cfg=cfg, traces={"meta": meta or {}, "traces": part}, **kw)
+            rej = {}
+            for payload in r.rej:
+                rej.setdefault(payload[0], (payload[1], payload[2] if len(payload) > 2 else 0))
+            acc = {p[0] for p in r.prints.get("ACC", [])}
+            for i, t in enumerate(part, 1):
+                if i in rej:
+                    rejected.append((t, rej[i][0], rej[i][1]))
+                elif i in acc:
+                    self.traces_validated += 1
+                else:
+                    raise MachineryError("%s: trace %d neither accepted nor rejected" % (module, i))
+        return rejected
+
     # ---- verdicts ----------------------------------------------------
     def reject(self, key, what, replay):
         """A property clause was violated on the real code.  `key` identifies the
@@ -395,8 +417,9 @@ class Check:
             "wall_s": round(time.time() - self.t0, 2),
             "violations": len(self.violations),
         }
-        os.makedirs(os.path.join(VERIF, "evidence"), exist_ok=True)
-        with open(os.path.join(VERIF, "evidence", self.pid + ".json"), "w") as f:
+        evdir = "evidence" if os.path.realpath(REPO) == "/repo" else "evidence-scratch"
+        os.makedirs(os.path.join(VERIF, evdir), exist_ok=True)
+        with open(os.path.join(VERIF, evdir, self.pid + ".json"), "w") as f:
             json.dump(ev, f, indent=1, default=repr)
         self.log(
             "done: %d evaluations, %d nontrivial, %d TLC states, %d traces validated, %d violations, %d known"
